@@ -121,6 +121,11 @@ SYMMAP = Dom(['symmap'], label='SYMMAP')                                       #
 SYMMAP_LISTS = Dom(['symmap'], attrs={'default_list': True}, label='SYMMAP_LISTS')   # defaultdict(list)
 
 
+def DDICT(**entries):
+    """ a defaultdict(list) with the given keys (symbolic side); values are list Doms """
+    return Dom(['ddict'], attrs={'entries': entries}, label='DDICT(%s)' % ', '.join(entries))
+
+
 def PROD(lhs, *rhs):
     """ a production instance handed to a grammar action: PROD('expression', ('expression', VALUE_T), ('PLUS', '+'), ...)
         each right-hand-side entry is (symbol name, Dom or constant) """
@@ -186,6 +191,34 @@ def map_has(m, key):
 
 def map_get(m, key):
     return m[key]
+
+
+def choice(n):
+    raise NotImplementedError('choice() is only available to the symbolic executor')
+
+
+def ddict(**kw):
+    import collections
+    d = collections.defaultdict(list)
+    d.update(kw)
+    return d
+
+
+def listener(fn, ctx):
+    from hotxlfp.tinyemitter import Listener
+    return Listener(fn=fn, ctx=ctx)
+
+
+def has_attr(o, name):
+    return hasattr(o, name)
+
+
+def get_attr(o, name):
+    return getattr(o, name)
+
+
+def is_closure(o):
+    return callable(o)
 
 
 def result_of(contract_cls, *args):
@@ -478,7 +511,7 @@ def ceil(x):
 
 
 NATIVE_NAMES = ['Outcome', 'Dom', 'NONE_T', 'BOOL', 'INT', 'FLOAT', 'STR', 'ERR', 'DATE', 'NUMBER', 'NUMBERB', 'SCALAR',
-                'HOSTOBJ', 'ANY', 'VALUE_T', 'SEQ', 'ARGS', 'CONST', 'CHOICE', 'TUPLE', 'LISTN', 'OBJECT', 'HOSTFN', 'SYMMAP', 'SYMMAP_LISTS', 'OMITTED', 'host_calls', 'emits', 'setter_values', 'registry_has', 'registry_fn', 'map_has', 'map_get', 'PROD', 'str_of_symbol', 'calls', 'call_result', 'result_of', 'contract',
+                'HOSTOBJ', 'ANY', 'VALUE_T', 'SEQ', 'ARGS', 'CONST', 'CHOICE', 'TUPLE', 'LISTN', 'OBJECT', 'HOSTFN', 'DDICT', 'choice', 'ddict', 'listener', 'has_attr', 'get_attr', 'is_closure', 'SYMMAP', 'SYMMAP_LISTS', 'OMITTED', 'host_calls', 'emits', 'setter_values', 'registry_has', 'registry_fn', 'map_has', 'map_get', 'PROD', 'str_of_symbol', 'calls', 'call_result', 'result_of', 'contract',
                 'lemma', 'is_none', 'is_bool', 'is_int', 'is_float', 'is_num', 'is_numb', 'is_str', 'is_err', 'is_date',
                 'is_list', 'is_obj', 'same', 'truthy', 'implies', 'raises', 'raise_err', 'forall', 'exists', 'flat', 'collapse_spaces', 'replace_kth', 'col_value', 'col_label', 'is_cell_label', 'is_digits', 'label_parts', 'parsed_label', 'parity_true', 'xl_type', 'date_us', 'date_from_us', 'dateutil_parse',
                 'int_of_text', 'text_is_int', 'float_of_text', 'text_is_float', 'errmsg', 'is_canonical', 'real',
